@@ -36,6 +36,7 @@ TopId == 1
 MidId == 3
 RootId == 6
 RootPath == <<"mid", "root">>
+MaxPath == 6
 OutsideIds == {1, 2, 3, 4, 5, 7}
 
 EPERM == 1  ENOENT == 2  EIO == 5  EEXIST == 17  ENOTDIR == 20  EISDIR == 21  EINVAL == 22
@@ -44,7 +45,7 @@ ENOTEMPTY == 39  ELOOP == 40  EBUSY == 16
 (* '/'-split components of the raw names that are not plain. *)
 SpecialComps ==
   ".." :> <<"..">> @@ "." :> <<".">> @@ "" :> <<"">> @@ "/" :> <<"", "">> @@
-  "a/b" :> <<"a", "b">> @@ "a/a" :> <<"a", "a">> @@ "a/c" :> <<"a", "c">> @@ "/a" :> <<"", "a">> @@ "/b" :> <<"", "b">> @@
+  "a/b" :> <<"a", "b">> @@ "a/a" :> <<"a", "a">> @@ "a/c" :> <<"a", "c">> @@ "/a" :> <<"", "a">> @@ "/b" :> <<"", "b">> @@ "/c" :> <<"", "c">> @@ "/a/c" :> <<"", "a", "c">> @@ "/a/b" :> <<"", "a", "b">> @@
   "a/.." :> <<"a", "..">> @@ "a/../b" :> <<"a", "..", "b">> @@
   "../cs" :> <<"..", "cs">> @@ "../cd" :> <<"..", "cd">> @@ "../x" :> <<"..", "x">> @@ "../root" :> <<"..", "root">> @@
   "../../ca" :> <<"..", "..", "ca">> @@ "../../x" :> <<"..", "..", "x">> @@ "../.." :> <<"..", "..">> @@
@@ -192,8 +193,7 @@ P_truncate(t, p, n) ==
   LET i == Stat(t, p)
   IN IF i < 0 THEN R(t, 0 - i)
      ELSE IF K(t, i) = "D" THEN R(t, EISDIR)
-     ELSE R([t EXCEPT !.node[i].data = Resize(@, n),
-                      !.node[i].mt = IF n = Len(t.node[i].data) THEN @ ELSE 0], 0)
+     ELSE R([t EXCEPT !.node[i].data = Resize(@, n), !.node[i].mt = 0], 0)   \* Linux: also when the size stays
 
 P_chmod(t, p, perm) ==
   LET i == Stat(t, p) IN IF i < 0 THEN R(t, 0 - i) ELSE R([t EXCEPT !.node[i].perm = perm], 0)
@@ -311,6 +311,7 @@ SeqsUpTo(S, n) == IF n = 0 THEN {<<>>} ELSE LET r == SeqsUpTo(S, n - 1) IN r \cu
 
 Walk(f, nf, names) ==
   /\ "Walk" \in Ops /\ fid[f].used /\ (nf = f \/ ~fid[nf].used)
+  /\ Len(fid[f].path) + Len(names) <= MaxPath     \* "." and "" elements stay in the path: bound it
   /\ LET op == <<"Walk", f, nf, names>>
          F == fid[f]
          n == Len(names)
@@ -341,10 +342,13 @@ StatF(f) ==
 (* IF, not \/: inside an action TLC evaluates both disjuncts *)
 Fresh(F) == LET i == Lstat(tree, F.path) IN IF i < 0 THEN TRUE ELSE K(tree, i) = F.qt
 NotLink(F) == LET i == Lstat(tree, F.path) IN IF i < 0 THEN TRUE ELSE K(tree, i) # "L"
+(* no proper prefix of p is a symlink (the path does not lead THROUGH a link) *)
+NoLinkPrefix(p) == \A j \in 1..(Len(p) - 1) : LET i == Lstat(tree, SubSeq(p, 1, j)) IN IF i < 0 THEN TRUE ELSE K(tree, i) # "L"
 DetachOpen(fd, t) == [g \in Fids |-> IF fd[g].onode # 0 /\ K(t, fd[g].onode) = "-" THEN [fd[g] EXCEPT !.onode = 0] ELSE fd[g]]
 
 Open(f, m) ==
   /\ "Open" \in Ops /\ fid[f].used /\ Fresh(fid[f]) /\ NotLink(fid[f])
+  /\ fid[f].open < 0     \* Topen on an open fid is refused by srv_fcall.go (fid-table rules: C04/C05, not modelled here)
   /\ LET op == <<"Open", f, m>>
          F == fid[f]
      IN IF F.open >= 0 \/ (F.qt = "D" /\ m # 0) \/ Lstat(tree, F.path) < 0
@@ -392,6 +396,7 @@ Create(f, name, kind, perm, m, ext, g) ==
 
 Remove(f) ==
   /\ "Remove" \in Ops /\ fid[f].used /\ ~Dotted(fid[f].path) /\ Clean(fid[f].path) # RootPath
+  /\ NoLinkPrefix(fid[f].path)
   /\ IsPrefix(RootPath, fid[f].path) \/ ~FixConfine
   /\ LET op == <<"Remove", f>>
          F == fid[f]
@@ -406,6 +411,7 @@ RenameDest(F, nn) ==
 
 Rename(f, nn) ==
   /\ "Rename" \in Ops /\ fid[f].used /\ ~Dotted(fid[f].path) /\ Clean(fid[f].path) # RootPath /\ nn # ""
+  /\ NoLinkPrefix(fid[f].path)     \* renaming through a symlinked directory (lexical vs physical parent): out of scope
   /\ LET op == <<"Rename", f, nn>>
          F == fid[f]
          q == RenameDest(F, nn)
@@ -445,8 +451,10 @@ Next ==
   \/ \E f \in Fids, nf \in Fids, names \in SeqsUpTo(WalkNames, MaxWalk) : Walk(f, nf, names)
   \/ \E f \in Fids : StatF(f)
   \/ \E f \in Fids, m \in Modes : Open(f, m)
-  \/ \E f \in Fids, name \in CreateNames, kind \in CreateKinds, perm \in Perms, m \in Modes,
-        ext \in LinkTargets \cup {""}, g \in Fids \cup {0} : Create(f, name, kind, perm, m, ext, g)
+  \/ \E f \in Fids, name \in CreateNames, perm \in Perms, m \in Modes : Create(f, name, "F", perm, m, "", 0)
+  \/ \E f \in Fids, name \in CreateNames, perm \in Perms : Create(f, name, "D", perm, 0, "", 0)
+  \/ \E f \in Fids, name \in CreateNames, ext \in LinkTargets : Create(f, name, "L", 420, 0, ext, 0)
+  \/ \E f \in Fids, name \in CreateNames, g \in Fids : Create(f, name, "H", 420, 0, "", g)
   \/ \E f \in Fids : Remove(f)
   \/ \E f \in Fids, nn \in RenameNames : Rename(f, nn)
   \/ \E f \in Fids, n \in Lens : Truncate(f, n)
